@@ -37,7 +37,7 @@ def main():
     try:
         demo_dst = os.path.join(scratch, pkg, "zz_seeded_demo_test.go")
         shutil.copy(demo, demo_dst)
-        rc0, out0 = sh("go test %s -count=1 -run TestSeededDemo ./%s/" % (RACE, pkg), cwd=scratch, timeout=600)
+        rc0, out0 = sh("go test -vet=off %s -count=1 -run TestSeededDemo ./%s/" % (RACE, pkg), cwd=scratch, timeout=600)
         res["demo_passes_without_change"] = rc0 == 0
         ran.append("go test -run TestSeededDemo ./%s/ (unchanged): rc=%d" % (pkg, rc0))
         os.unlink(demo_dst)
@@ -46,11 +46,11 @@ def main():
         if rc != 0:
             res["apply_error"] = out[-500:]
         else:
-            rc1, out1 = sh("go build ./... && go test -count=1 ./...", cwd=scratch, timeout=1500)
+            rc1, out1 = sh("go build ./... && go test -vet=off -count=1 ./...", cwd=scratch, timeout=1500)
             res["existing_tests_pass_with_change"] = rc1 == 0
             ran.append("go build ./... && go test ./... (with change): rc=%d" % rc1)
             shutil.copy(demo, demo_dst)
-            rc2, out2 = sh("go test %s -count=1 -run TestSeededDemo ./%s/" % (RACE, pkg), cwd=scratch, timeout=600)
+            rc2, out2 = sh("go test -vet=off %s -count=1 -run TestSeededDemo ./%s/" % (RACE, pkg), cwd=scratch, timeout=600)
             res["demo_fails_with_change"] = rc2 != 0
             ran.append("go test -run TestSeededDemo ./%s/ (with change): rc=%d" % (pkg, rc2))
             res["demo_output_tail"] = out2[-600:]
